@@ -20,7 +20,7 @@ def fmt(ops):
 
 def prefixes(rng, n):
     out = []
-    for size in (8, 16, 32, 64):
+    for size in (8, 16, 32, 64, 128):
         for _ in range(n):
             cnt = rng.randrange(3, size)          # enough to force doublings up to this size
             mode = rng.random()
@@ -28,6 +28,10 @@ def prefixes(rng, n):
             if mode < 0.35:      # one residue class, wrapping the end
                 base = rng.choice([size - 1, size - 2, 0, 1])
                 keys = [base + size * j for j in rng.sample(range(1, 60), min(cnt, 40))]
+            elif mode < 0.45:    # a long run from bucket 0 made of keys that wrapped from the last buckets, then enough keys
+                                 # near the end of the table to force the doubling while the run is in place
+                keys = [size - 1 - (j % 3) + size * rng.randrange(1, 40) for j in range(min(cnt, 17 + rng.randrange(0, 12)))]
+                keys += [size - 4 - rng.randrange(0, 6) + size * rng.randrange(1, 9) for _ in range(size)]
             elif mode < 0.7:     # cluster straddling the last bucket, mixed stay/move keys
                 for j in range(cnt):
                     b = (size - 3 + rng.randrange(0, 5)) % size
@@ -36,6 +40,30 @@ def prefixes(rng, n):
                 keys = [rng.randrange(1, 4 * size) for _ in range(cnt)]
             keys = [k for k in dict.fromkeys(keys) if k != 0]
             out.append(keys)
+    return out
+
+
+def wrap_cases(rng):
+    """key sets built for one doubling N -> 2N: a run of r occupied buckets from bucket 0, the last t buckets occupied by keys that
+    MOVE to the upper half when the table doubles, then a key W whose home is one of those last buckets, which therefore wraps
+    around to the end of the run and which STAYS in the lower half; fillers in the middle up to the growth threshold; one more
+    insert forces the doubling.  (Reaching N buckets first takes the earlier doublings, which the fillers' order randomises.)"""
+    out = []
+    for N in (32, 64, 128):
+        T = (3 * N) // 4
+        for r in (1, 8, 15, 16, 17, 20):
+            for t in (1, 2, 3):
+                if r + t + 1 >= T:
+                    continue
+                run_keys = [b + N * rng.choice([1, 2, 3, 5, 6]) for b in range(r)]
+                run_keys = [k if k % N != 0 or k != 0 else N for k in run_keys]
+                tail = [(N - 1 - j) + N * rng.choice([1, 3, 5]) for j in range(t)]                # odd multiple: home moves to the upper half
+                W = [(N - 1 - rng.randrange(t)) + 2 * N * rng.randrange(1, 5) for _ in range(rng.choice([1, 2]))]   # even multiple: stays
+                mid = list(range(r + 2, N - t - 2))
+                rng.shuffle(mid)
+                fill = [b + N * rng.randrange(1, 6) for b in mid[:max(0, T - (r + t + len(W)))]]
+                keys = list(dict.fromkeys(k for k in run_keys + tail + W + fill if k != 0))
+                out.append(keys + [N * 2 * 7 + r + 3])            # the insert that triggers the doubling
     return out
 
 
@@ -50,7 +78,10 @@ def run(ctx):
     for pre in prefixes(rng, 6 if ctx.tier == "quick" else 40):
         p = [("i", k, i + 1) for i, k in enumerate(pre)]
         for s in (suffixes if ctx.tier != "quick" else rng.sample(suffixes, 40)):
-            hist.append(p + list(s) + [("f", k, 0) for k in universe])
+            # afterwards every key inserted so far is looked up, and some are inserted again (must be reported as repeats)
+            hist.append(p + list(s) + [("f", k, 0) for k in universe] + [("f", k, 0) for k in pre] + [("i", k, 7777) for k in pre[::5]])
+    for keys in wrap_cases(rng):
+        hist.append([("i", k, i + 1) for i, k in enumerate(keys)] + [("f", k, 0) for k in keys] + [("i", k, 7777) for k in keys[::4]])
     # exhaustive short insert sequences from the empty table
     for n in range(1, 4 if ctx.tier == "quick" else 5):
         for t in itertools.product(universe[:8], repeat=n):
